@@ -476,7 +476,7 @@ fn synthesize_args(
                 Ok(Rc::new(BodyForm::Call(
                     l.clone(),
                     vec![
-                        Rc::new(BodyForm::Value(SExp::atom_from_string(template.loc(), "c"))),
+                        Rc::new(BodyForm::Value(operator_head(&template.loc(), "c"))),
                         synthesize_args(f.clone(), env)?,
                         synthesize_args(r.clone(), env)?,
                     ],
